@@ -45,7 +45,7 @@ def termS (t : Fsic.Lx.Term) : String := s!"{kindStr t.kind},{cps t.name},{idxSt
 
 def perrStr : PErr → String
   | .parserError => "ParserError" | .indentationError => "IndentationError"
-  | .formatFailure => "FormatFailure" | .unpackFailure => "UnpackFailure"
+  | .symbolError => "SymbolError" | .formatFailure => "FormatFailure"
 
 def eqOutStr : EqOut → String
   | .empty => "empty"
